@@ -40,7 +40,7 @@ theorem text_sim (w h : Nat) (s : Bytes) : ∀ (a b : Buf), a.sim b →
 theorem applyBuf_sim (w h : Nat) (a b : Buf) (op : TermOp) (hs : a.sim b) :
     (applyBuf w h a op).sim (applyBuf w h b op) := by
   cases op with
-  | text s => exact text_sim w h s a b hs
+  | text s => exact text_sim w h (Ansi.visible s) a b hs
   | _ =>
     obtain ⟨ac, atop, acr, acc, apw, _, _, _, _⟩ := a
     obtain ⟨bc, btop, bcr, bcc, bpw, _, _, _, _⟩ := b
